@@ -7,7 +7,8 @@
 (*     [op:"limit", n]               top level only                                   *)
 (*     [op:"dict", key: kf]          one {key_spec: sub} level                         *)
 (*     [op:"list"|"last"|"agg", agg, val]   leaf: [val] / bare val (last value wins) /  *)
-(*                                   First Max Min Avg Count Sum(val) Flatten(val) Merge(val) *)
+(*                                   First Max Min Avg Count Sum(val) Flatten(val) Merge(val), *)
+(*                                   where val may itself be a Group (nested evaluation)       *)
 (* Items are integers VInt(i), or IdVal(l) = "the integer id() of the dict / list     *)
 (* spec object at level l" (the values that collide with accumulator-tree keys).      *)
 (* The spec nodes, aggregators and key specs of different levels are distinct objects. *)
@@ -28,7 +29,7 @@ EXTENDS GlomData
 
 CONSTANTS Fixes,     \* subset of {"stop", "skiptrace"}: candidate repairs applied to the
                      \* transcribed mechanism ({} = the code as it is)
-          Mutant     \* "none" | "carry" | "avgint" | "limit1" | "firstlast" | "rawbucket" | "nobase":
+          Mutant     \* "none" | "carry" | "avgint" | "limit1" | "firstlast" | "curagg" | "rawbucket" | "nobase":
                      \* wrong mechanisms the laws must reject (vacuity check); the last two are
                      \* the mechanisms of glom before fd673fd / b769243
 
@@ -74,8 +75,23 @@ ValApply(vf, x) ==
 PairElems(x) == <<x, VInt(x.i + 10)>>                               \* [t, t + 10]
 KvPairs(x)   == << <<VInt(x.i % 2), x>>, <<VStr("v"), x>> >>        \* {t % 2: t, 'v': t}
 
+\* sub-specs of Sum / Flatten / Merge that are themselves a Group, evaluated on the item
+\* (then a small list, [t, t + 10]): a nested evaluation, worth what the law says of it
+RECURSIVE RefGroup(_, _)
+InnerKinds == {"gsum", "gcount", "gbsum"}
+InnerSpec(vf) ==
+  CASE vf = "gsum"   -> <<LeafL("agg", "Sum", "ident")>>                      \* Group(Sum())
+    [] vf = "gcount" -> <<DictL("mod2"), LeafL("agg", "Count", "ident")>>     \* Group({T % 2: Count()})
+    [] vf = "gbsum"  -> <<DictL("mod2"), LeafL("agg", "Sum", "ident")>>       \* Group({T % 2: Sum()})
+InnerValue(vf, x) == RefGroup(InnerSpec(vf), PairElems(x))
+SumAddend(vf, x)  == IF vf \in InnerKinds THEN InnerValue(vf, x).i ELSE ValApply(vf, x).i
+FlatElems(vf, x)  ==                      \* list += value: its elements (keys of a dict)
+  IF vf \in InnerKinds THEN LET d == InnerValue(vf, x) IN [i \in 1..Len(d.items) |-> d.items[i][1]]
+  ELSE PairElems(x)
+MergePairs(vf, x) == IF vf \in InnerKinds THEN InnerValue(vf, x).items ELSE KvPairs(x)
+
 RECURSIVE SumVals(_, _)
-SumVals(vf, xs) == IF xs = <<>> THEN 0 ELSE ValApply(vf, Head(xs)).i + SumVals(vf, Tail(xs))
+SumVals(vf, xs) == IF xs = <<>> THEN 0 ELSE SumAddend(vf, Head(xs)) + SumVals(vf, Tail(xs))
 RECURSIVE MaxOf(_)
 MaxOf(xs) == IF Len(xs) = 1 THEN xs[1].i ELSE LET m == MaxOf(Tail(xs)) IN IF xs[1].i > m THEN xs[1].i ELSE m
 RECURSIVE MinOf(_)
@@ -87,10 +103,11 @@ Dedup(s, acc) ==
 RECURSIVE UpdateAll(_, _)
 UpdateAll(items, pairs) ==          \* dict.update: existing keys keep their place, last writer wins
   IF pairs = <<>> THEN items ELSE UpdateAll(SetKey(items, Head(pairs)[1], Head(pairs)[2]), Tail(pairs))
-RECURSIVE ConcatMap(_)
-ConcatMap(xs) == IF xs = <<>> THEN <<>> ELSE PairElems(Head(xs)) \o ConcatMap(Tail(xs))
-RECURSIVE MergeAll(_, _)
-MergeAll(items, xs) == IF xs = <<>> THEN items ELSE MergeAll(UpdateAll(items, KvPairs(Head(xs))), Tail(xs))
+RECURSIVE ConcatMap(_, _)
+ConcatMap(vf, xs) == IF xs = <<>> THEN <<>> ELSE FlatElems(vf, Head(xs)) \o ConcatMap(vf, Tail(xs))
+RECURSIVE MergeAll(_, _, _)
+MergeAll(vf, items, xs) ==
+  IF xs = <<>> THEN items ELSE MergeAll(vf, UpdateAll(items, MergePairs(vf, Head(xs))), Tail(xs))
 
 \* ================================================================================
 \* PART 1.  The law: what a hand-written loop builds
@@ -111,8 +128,8 @@ RefLeaf(L, xs) ==
     [] L.op = "agg" ->
          CASE L.agg = "Count"   -> VInt(Len(xs))                       \* len(xs)
            [] L.agg = "Sum"     -> VInt(SumVals(L.val, xs))            \* sum(val(x) for x in xs)
-           [] L.agg = "Flatten" -> DList(ConcatMap(xs))                \* list(chain.from_iterable(..))
-           [] L.agg = "Merge"   -> DDict(MergeAll(<<>>, xs))           \* d = {}; d.update(..) ...
+           [] L.agg = "Flatten" -> DList(ConcatMap(L.val, xs))              \* list(chain.from_iterable(..))
+           [] L.agg = "Merge"   -> DDict(MergeAll(L.val, <<>>, xs))         \* d = {}; d.update(..) ...
            [] OTHER ->
                 IF xs = <<>> THEN VNone                                \* first / max / min / mean of nothing
                 ELSE CASE L.agg = "First" -> xs[1]
@@ -135,7 +152,7 @@ Body(spec)      == IF spec[1].op = "limit" THEN 2 ELSE 1
 Passed(spec, xs) ==      \* a top-level Limit(n) passes the first n items on
   IF spec[1].op = "limit" THEN Take(xs, spec[1].n) ELSE xs
 Kept(spec, xs)  == LET Surv(x) == Survives(spec, Body(spec), x) IN SelectSeq(Passed(spec, xs), Surv)
-RefGroup(spec, xs) == RefAt(spec, Body(spec), Kept(spec, xs))
+RefGroup(spec, xs) == RefAt(spec, Body(spec), Kept(spec, xs))     \* (declared RECURSIVE above)
 \* the reference is defined (the law constrains the result) unless a bare aggregator / bare
 \* value has received no item at all
 RefDefined(spec, xs) == spec[Body(spec)].op \in {"dict", "list"} \/ Kept(spec, xs) # <<>>
@@ -157,7 +174,11 @@ RetAcc(h, acc) == IF "skiptrace" \in Fixes /\ h[acc.a].items = <<>> THEN R(h, SK
 \* ---- First / Max / Min / Avg .agg(target, tree);  Fold._agg / Merge._agg -----------
 AggEval(h, ta, l, L, x) ==
   LET me == AggKey(l)  has == DHas(h, ta, me) IN
-  CASE L.agg = "First" ->
+  \* Fold.glomit evaluates its sub-spec first; a sub-spec that is a Group is a nested evaluation
+  \* with its own accumulator tree and its own CUR_AGG = None (mutant "curagg": not reset, the
+  \* inner Sum / Count inherit the outer aggregator's marker, fold the single item and fail)
+  CASE L.val \in InnerKinds /\ Mutant = "curagg" -> R(h, VExc("FoldError"))
+    [] L.agg = "First" ->
          IF Mutant = "firstlast" THEN R(h, x)
          ELSE IF ~has THEN R(DSet(h, ta, me, STOP), x)           \* tree[self] = STOP; return target
          ELSE R(h, STOP)
@@ -175,7 +196,7 @@ AggEval(h, ta, l, L, x) ==
               IF Mutant = "avgint" THEN Norm(s \div n, 1) ELSE Norm(s, n))
     [] L.agg = "Sum" ->                                           \* tree[self] = init(); iadd
          LET cur == IF has THEN DGet(h, ta, me) ELSE VInt(0)
-             nv  == VInt(cur.i + ValApply(L.val, x).i)
+             nv  == VInt(cur.i + SumAddend(L.val, x))
          IN R(DSet(h, ta, me, nv), nv)
     [] L.agg = "Count" ->
          LET cur == IF has THEN DGet(h, ta, me) ELSE VInt(0)
@@ -184,11 +205,11 @@ AggEval(h, ta, l, L, x) ==
     [] L.agg = "Flatten" ->                                       \* list accumulator, extended in place
          LET h1  == IF has THEN h ELSE DSet(Append(h, Cell("list", <<>>)), ta, me, VRef(NewAddr(h)))
              acc == DGet(h1, ta, me)
-         IN R([h1 EXCEPT ![acc.a].items = @ \o PairElems(x)], acc)
+         IN R([h1 EXCEPT ![acc.a].items = @ \o FlatElems(L.val, x)], acc)
     [] L.agg = "Merge" ->                                         \* dict accumulator, updated in place
          LET h1  == IF has THEN h ELSE DSet(Append(h, Cell("dict", <<>>)), ta, me, VRef(NewAddr(h)))
              acc == DGet(h1, ta, me)
-         IN R([h1 EXCEPT ![acc.a].items = UpdateAll(@, KvPairs(x))], acc)
+         IN R([h1 EXCEPT ![acc.a].items = UpdateAll(@, MergePairs(L.val, x))], acc)
 
 \* ---- _glom(target = x, spec node l, scope) with scope[ACC_TREE] = cell ta ------------
 RECURSIVE GEval(_, _, _, _, _)
